@@ -226,7 +226,54 @@ def mon_walk(case, out):
     return bad
 
 
+def gen_walkconf(rng, tier):
+    """the same walk, with ndots taken from the system configuration (resolv.conf `options ndots:N`, N = 0 included),
+    optionally followed by a configuration change + ares_reinit(): monitor only (the configuration layer is C15/C16's model)"""
+    cases = []
+    n = 250 if tier == "quick" else 6000
+    for _ in range(n):
+        nm = T.rstr(rng, "abc", 1, 3) + "".join("." + T.rstr(rng, "abc", 1, 3) for _ in range(rng.randint(0, 3))) + rng.choice(["", "", "", "."])
+        doms = [rng.choice(["a.com", "b.org", "c", "d.e.f"]) for _ in range(rng.randint(1, 3))]
+        vec = [rng.choice(OUTCOMES[:3]) for _ in range(len(doms) + 1)]
+
+        def conf(nd):
+            lines = ["nameserver 10.0.0.1"]
+            if nd is not None:
+                lines.append(rng.choice(["options ndots:%d", "options ndots:%d timeout:2", "options rotate ndots:%d"]) % nd)
+            if rng.random() < 0.3:
+                lines.append("# ndots:7")
+            return T.hx("\n".join(lines) + "\n")
+        n1 = rng.choice([0, 0, 1, 2, 3, None])
+        tok = "conf:" + conf(n1)
+        if rng.random() < 0.5:
+            tok += ":" + conf(rng.choice([0, 1, 2, 3, None, None]))
+        cases.append(["walk %s %s %s 0 %s %s" % (rng.choice(["search", "gai"]), T.hx(nm), tok, ",".join(T.hx(d) for d in doms), ",".join(vec))])
+    grouped = []
+    for i in range(0, len(cases), 8):
+        grouped.append([l for c in cases[i:i + 8] for l in c])
+    return grouped
+
+
+def mon_walkconf(case, out):
+    import re as _re
+    lines = []
+    for line in case:
+        t = line.split()
+        if t[0] == "walk" and t[3].startswith("conf:"):
+            last = T.unhx(t[3][5:].split(":")[-1]).decode("latin1")
+            nd = 1
+            for ln in last.split("\n"):
+                if ln.startswith("options"):
+                    m = _re.findall(r"ndots:(\d+)", ln)
+                    if m:
+                        nd = int(m[-1])
+            t[3] = str(nd)
+        lines.append(" ".join(t))
+    return mon_walk(lines, out)
+
+
 STREAMS = [
+    Stream("walkconf", "h_text", None, gen_walkconf, monitor=mon_walkconf, nontrivial=lambda c, o: any(x.startswith("sent=[") for x in o)),
     Stream("namelist", "h_text", "driver_text", gen_namelist, monitor=mon_namelist,
            nontrivial=lambda c, o: any("names=[" in x for x in o)),
     Stream("walk", "h_text", "driver_text", gen_walk, monitor=mon_walk, nontrivial=lambda c, o: any(x.startswith("sent=[") for x in o)),
